@@ -196,10 +196,59 @@ let handle_cell (rest : string list) : string =
        | _ -> failwith "cell kind")
   | _ -> failwith "cell request"
 
+(* ---- C08: call depth / restarts / includes ---- *)
+let rec nat_of_int (i : int) : nat = if i <= 0 then O else S (nat_of_int (i - 1))
+let rec int_of_nat = function O -> 0 | S n -> 1 + int_of_nat n
+
+let xstate_of = function
+  | "none" -> XNone | "lookup" -> XLookup | "pass" -> XPass | "error" -> XErrorSt
+  | "restart" -> XRestartSt | "deliver" -> XDeliver | s -> failwith ("state " ^ s)
+let xstate_text = function
+  | XNone -> "none" | XLookup -> "lookup" | XPass -> "pass" | XErrorSt -> "error"
+  | XRestartSt -> "restart" | XDeliver -> "deliver"
+
+let rec xstmt_of (x : sexp) : xstmt =
+  match x with
+  | Ls [At "skip"] -> XSkip
+  | Ls [At "call"; At n] -> XCall (nat_of_int (int_of_string n))
+  | Ls [At "if"; At c; Ls t; Ls e] -> XIf (c = "1", List.map xstmt_of t, List.map xstmt_of e)
+  | Ls [At "ifr"; At k; Ls t; Ls e] -> XIfRestartsLt (nat_of_int (int_of_string k), List.map xstmt_of t, List.map xstmt_of e)
+  | Ls [At "restart"] -> XRestart
+  | Ls [At "ret"; At s] -> XReturn (xstate_of s)
+  | Ls [At "error"] -> XError
+  | _ -> failwith ("bad xstmt " ^ sexp_to_string x)
+
+(* sim <sexp of subs> : ((stmt ...) (stmt ...) ...)  ->  ok <state> <restarts> | err *)
+let handle_sim (rest : string) : string =
+  match parse_sexps rest with
+  | [Ls subs] ->
+      let subs = List.map (function Ls l -> List.map xstmt_of l | _ -> failwith "sub") subs in
+      (match Eval_model.serve subs maxCallStackExceedCount maxVarnishRestarts (S maxVarnishRestarts) O with
+       | OK (st, n) -> "ok " ^ xstate_text st ^ " " ^ string_of_int (int_of_nat n)
+       | Err -> "err" | Crash -> "crash" | OutOfFuel -> "outoffuel")
+  | _ -> failwith "sim request"
+
+(* inc <m0>|<m1>|... <top> : items i<n> include, s<tag> statement; "-" = empty -> ok <count> | err *)
+let items_of (s : string) : item list =
+  if s = "-" then [] else
+  List.map (fun w ->
+    let n = nat_of_int (int_of_string (String.sub w 1 (String.length w - 1))) in
+    if w.[0] = 'i' then IInclude n else IStmt n) (split_on ',' s)
+let handle_inc (rest : string list) : string =
+  match rest with
+  | [ms; top] ->
+      let mods = if ms = "." then [] else List.map items_of (split_on '|' ms) in
+      (match resolve (S (nat_of_int (List.length mods))) mods [] (items_of top) with
+       | OK out -> "ok " ^ string_of_int (List.length out)
+       | Err -> "err" | Crash -> "crash" | OutOfFuel -> "outoffuel")
+  | _ -> failwith "inc request"
+
 let handle (req : string) : string =
   match split_on ' ' req with
   | ("acl" | "aclspec" | "aclold" as w) :: rest -> handle_acl w rest
   | "cell" :: rest -> handle_cell rest
+  | "sim" :: rest -> handle_sim (String.concat " " rest)
+  | "inc" :: rest -> handle_inc rest
   | _ -> failwith "unknown request"
 
-let () = serve handle
+let () = Common.serve handle
